@@ -53,7 +53,13 @@ fn param(s: &mut S, me: &str) -> String {
         3 => "&pre".into(),
         4 => "#c0,#c0".into(),
         5 => "#c0,#c1,&pre,#new1,#new1".into(),
-        6 => me.to_string(),
+        6 => {
+            if s.chance(25) {
+                me.to_uppercase()
+            } else {
+                me.to_string()
+            }
+        }
         7 => "n0".into(),
         8 => "n1,n1,n2".into(),
         9 => format!("{},n0,{}", me, me),
@@ -113,7 +119,9 @@ pub fn fuzz_line(s: &mut S, me: &str) -> (String, String) {
         return (format!("MODE {} {}", target, q), format!("MODE/list{}", q.split(' ').next().unwrap_or("")));
     }
     if verb == "MODE" && s.chance(60) {
-        let target = ["#c0", "#c1", "&pre", me, "n0", "#nonexistent"][s.pick(6)];
+        // (the own nick also in another letter case: a different - here nonexistent - user)
+        let upper = me.to_uppercase();
+        let target = ["#c0", "#c1", "&pre", me, "n0", "#nonexistent", upper.as_str(), "N0", "#C0"][s.pick(9)];
         let strings = [
             "+o-o+l-l+b", "+ov n1 n2", "+b *!*@*", "-b *!*@*", "+b", "+e", "+I", "+k k1", "-k", "+l 1", "-l",
             "+kl k1 2", "+lk 3 k2", "+imtns", "-imtns", "+q n1", "-q n0", "+a n2", "-a n2", "+h n3", "-h n3",
